@@ -16,7 +16,7 @@ func init() {
 	register(&Check{
 		ID:    "C06",
 		Level: "model_checking",
-		Rule: "explicit enumeration of the file-system state transition of RunFiles: 18 commands (replacement longer / equal / shorter / empty / absent for some or all matches / multi-byte UTF-8, zero matches, match at offset 0 and at the end, adjacent matches covering the file, skip/take/last windows, anchors, find) x every file content over {a,b,\\n} up to length 4 plus 4095/4096/4097/8193-byte files with the motif at the start, across the buffer boundary and at the end x mode {NOTHING, NEW, OVERWRITE} x pre-state {no .vored, stale longer .vored, stale shorter .vored} x {one file, two files}; " +
+		Rule: "explicit enumeration of the file-system state transition of RunFiles: 21 sources (three of them with two or three commands; replacement longer / equal / shorter / empty / absent for some or all matches / multi-byte UTF-8, zero matches, match at offset 0 and at the end, adjacent matches covering the file, skip/take/last windows, anchors, find) x every file content over {a,b,\\n} up to length 4 plus 4095/4096/4097/8193-byte files with the motif at the start, across the buffer boundary and at the end x mode {NOTHING, NEW, OVERWRITE} x pre-state {no .vored, stale longer .vored, stale shorter .vored} x {one file, two files}; " +
 			"state = complete directory snapshot (names and bytes); the post-state must equal the expected directory: NOTHING identical, NEW original untouched + <f>.vored == splice(input, matches, replacements) and nothing else, OVERWRITE <f> == splice and nothing else, find identical in every mode; splice is computed from Run(string); states = distinct (pre,post) directory snapshots, transitions = RunFiles calls",
 		Assume: []string{"the operating system performs the writes; no crash points are explored (no property asks for it)"},
 		Budget: map[string]int{"quick": 150, "thorough": 1200},
@@ -38,6 +38,8 @@ var c06Commands = []string{
 	"replace all 'a' or ('b' = d) with d", "replace all 'a' with nope",
 	// replacement text longer in bytes than in characters
 	"replace all 'a' with '\xc3\xa9'", "replace all ('b' = x) with x '\xe2\x82\xac' x",
+	// several commands: a later command works on what an earlier OVERWRITE left
+	"replace all 'a' with 'bb'\nreplace all 'b' with 'c'", "find all 'a'\nreplace all 'a' with ''\nfind all 'b'", "replace all 'ab' with 'b'\nreplace all 'b' with 'ab' 'a'",
 }
 
 func snapshotDir(dir string) map[string]string {
@@ -121,20 +123,43 @@ func runC06(c *Ctx) {
 			}
 			continue
 		}
-		isReplace := strings.HasPrefix(cmd, "replace")
+		isReplace := strings.Contains(cmd, "replace ")
+		// the commands of a source are executed one after the other on every file: each replace command
+		// splices what it finds in the file as it is then (OVERWRITE changes it for the next command,
+		// NEW leaves it and rewrites the .vored file)
+		var subs []*libvore.Vore
+		var subIsReplace []bool
+		for _, sc := range strings.Split(cmd, "\n") {
+			sv, _, _ := compileSafe(sc)
+			subs = append(subs, sv)
+			subIsReplace = append(subIsReplace, strings.HasPrefix(sc, "replace"))
+		}
+		model := func(in string, mode engine.ReplaceMode) (string, string, bool) {
+			cur, vored, wrote := in, "", false
+			for i, sv := range subs {
+				if !subIsReplace[i] || sv == nil {
+					continue
+				}
+				ms, _ := runSafe(sv, cur)
+				out := splice(cur, ms)
+				switch mode {
+				case engine.NEW:
+					vored, wrote = out, true
+				case engine.OVERWRITE:
+					cur = out
+				}
+			}
+			return cur, vored, wrote
+		}
 		for _, content := range contents {
 			content := content
 			if !c.Unit(func() string { return fmt.Sprintf("%s on a %d-byte file %.20q", cmd, len(content), content) }) {
 				continue
 			}
-			ms, pi := runSafe(v, content)
-			if pi != nil {
+			if _, pi := runSafe(v, content); pi != nil {
 				continue // C09
 			}
-			want := content
-			if isReplace {
-				want = splice(content, ms)
-			}
+			want, _, _ := model(content, engine.OVERWRITE)
 			for _, mode := range modes {
 				for _, ps := range pre {
 					for _, two := range []bool{false, true} {
@@ -142,7 +167,7 @@ func runC06(c *Ctx) {
 						if n%300 == 0 {
 							runtime.GC() // file descriptors of readers the engine does not close are released by finalizers
 						}
-						c06Case(c, v, cmd, content, want, isReplace, mode, ps, two)
+						c06Case(c, v, cmd, content, want, isReplace, mode, ps, two, model)
 					}
 				}
 			}
@@ -150,7 +175,7 @@ func runC06(c *Ctx) {
 	}
 }
 
-func c06Case(c *Ctx, v *libvore.Vore, cmd, content, want string, isReplace bool, mode engine.ReplaceMode, pre string, two bool) {
+func c06Case(c *Ctx, v *libvore.Vore, cmd, content, want string, isReplace bool, mode engine.ReplaceMode, pre string, two bool, model func(string, engine.ReplaceMode) (string, string, bool)) {
 	dir, err := os.MkdirTemp("", "vmc-c06-")
 	if err != nil {
 		return
@@ -175,17 +200,10 @@ func c06Case(c *Ctx, v *libvore.Vore, cmd, content, want string, isReplace bool,
 	}
 	if isReplace {
 		for _, f := range files {
-			in := before[f]
-			w := want
-			if f == "g" {
-				ms2, _ := runSafe(v, in)
-				w = splice(in, ms2)
-			}
-			switch mode {
-			case engine.NEW:
-				expected[f+".vored"] = w
-			case engine.OVERWRITE:
-				expected[f] = w
+			file, vored, wrote := model(before[f], mode)
+			expected[f] = file
+			if wrote {
+				expected[f+".vored"] = vored
 			}
 		}
 	}
